@@ -120,6 +120,8 @@ def make_family(ctx, rng):
             name = rng.choice(sorted(inherited_props))
             node["props"][name] = gen.prop(2, name)
             ctx.count("prop.overridden")
+        if "default" in node["kw"] and rng.random() < 0.3:
+            node["default_in_body"] = True
         chain.append(node)
     if depth >= 3:
         ctx.count("depth.3plus")
